@@ -11,7 +11,7 @@ def plan(ctx):
         depth = 2 if not thorough else 3
         defs = dict(DEPTH=depth, SLOTS=3)
         if excl: defs["EXCL_WRAP"] = None
-        obs.append(Ob(id=f"registry-history-d{depth}" + ("-excl-wrap" if excl else ""), harness="c14.c", defs=defs, units=RU, unwind=8, unwindset={"liberasurecode_backend_alloc_desc.0": 8},
+        if thorough: obs.append(Ob(id=f"registry-history-d{depth}" + ("-excl-wrap" if excl else ""), harness="c14.c", defs=defs, units=RU, unwind=8, unwindset={"liberasurecode_backend_alloc_desc.0": 8},
                       timeout=1800, mem_gb=10, sample={"symbolic": f"counter start value, {depth} x (operation, slot, lookup key)", "slots": 3, "excluded_input": "counter within reach of INT_MAX" if excl else None}, targets=T))
         for n in range(0, 4):
             for perm in itertools.permutations(range(3), n):
